@@ -1092,13 +1092,26 @@ def correspondence(ctx):
 
 
 def _assert_constants(ctx):
-    """Numbers the model hard-codes and the code owns: defaults of _get_max_int_from_meta and the NP2 gain."""
-    import inspect
+    """Numbers the model hard-codes and the code owns (defaults of _get_max_int_from_meta, the NP2 gain 80): checked by what the
+    code DOES on minimal metadata, never by looking for a literal in its source text (a renamed constant must not alarm)."""
     import spikeglx
-    src = inspect.getsource(spikeglx._get_max_int_from_meta) + inspect.getsource(spikeglx._conversion_sample2v_from_meta)
-    for needle in ('"imMaxInt", 512', '"imMaxInt", 32768', 'int2volt / 80'):
-        ok = needle in src
-        ctx.compare('constant', {'op': 'constant', 'needle': needle}, 'present' if ok else 'absent', 'present', nontrivial=False, tags=('constant',))
+    probes = [
+        ('np1 default max int', lambda: int(spikeglx._get_max_int_from_meta({'typeThis': 'imec', 'imDatPrb_type': 0})), 512),
+        ('nidq default max int', lambda: int(spikeglx._get_max_int_from_meta({'typeThis': 'nidq'})), 32768),
+    ]
+
+    def np2_gain():
+        md = {'typeThis': 'imec', 'imDatPrb_type': 21, 'imMaxInt': 8192, 'imAiRangeMax': 0.5, 'imAiRangeMin': -0.5,
+              'snsApLfSy': [2, 0, 1], 'nSavedChans': 3, 'imroTbl': '(21,2)(0 0 0 0 0)(1 0 0 0 1)'}
+        c = spikeglx._conversion_sample2v_from_meta(md)
+        return float(np.float32(0.5 / 8192) / np.float32(c['ap'][0]))
+    probes.append(('np2 fixed gain', lambda: round(np2_gain(), 3), 80.0))
+    for name, f, want in probes:
+        try:
+            got = f()
+        except Exception as e:  # noqa
+            got = 'err ' + type(e).__name__
+        ctx.compare('constant', {'op': 'constant', 'what': name}, got, want, nontrivial=False, tags=('constant',))
 
 
 # ---------------------------------------------------------------------------------------------
